@@ -32,8 +32,9 @@ ASSUMPTIONS = [
     "decoded notes carry the score ids returned by encode_performance; they are compared with the performed note matched to that score id",
     "tolerances: onsets (after removing the median shift) (2e-5 + 1e-6*R)*(1+T) seconds, durations (1e-3*max(1,R/1000))*d + 1e-5 seconds, velocities exact; T = end of the performance in seconds, R = ratio of the largest to the smallest local beat period of the input (float32 parameters; the standardized normalisation cancels for large R)",
     "float32 columns of the matched-note table: 1e-5*(1+|x|); order of rows with equal (score onset, pitch) is not demanded",
-    "time maps are judged at the matched score onsets / mean performed onsets (tolerance 1e-5*(1+|x|) plus the local slope times 5e-7*(1+|x|), float32 knots) and must stay between neighbouring knots at the midpoints",
+    "time maps are judged at the matched score onsets / mean performed onsets (tolerance 1e-5*(1+|x|) plus the local slope times 5e-7*(1+|x|), float32 knots) and must be the linear interpolation halfway between neighbouring knots (1e-4*(1+|x|) + 1e-3 of the knot distance)",
     "every score id / performance id occurs in at most one match of the alignment",
+    "beyond the property statement, the 'average' tempo curve is compared with its documented meaning (performed interval of successive mean onsets per score interval) at all but the last score onset; the values of the 'derivative' curve are not judged, only that the round trip holds with it",
 ]
 
 SHORT_MS = 75  # the codec's minimal performed duration is 60 / 200 * 0.25 s
@@ -209,34 +210,7 @@ def oracle_roundtrip(spec):
         if cfg not in e[0]:
             e[0].append(cfg)
 
-    configs = [(n, m) for n in GP.NORMS for m in GP.METHODS]
-    for cfg in configs:
-        norm, meth = cfg
-        try:
-            res = feed(lambda al: PC.encode_performance(score, perf, al, beat_normalization=norm, tempo_smooth=meth))
-        except SutRaised as e:
-            note(e.kind + ":encode", cfg, text=e.text)
-            continue
-        if not (isinstance(res, tuple) and len(res) == 2):
-            note("encode-result-shape", cfg, got=repr(type(res)))
-            continue
-        params, sids = res
-        sids = [str(x) for x in sids]
-        want_cols = ["beat_period", "velocity", "timing", "articulation_log"] + GP.NORM_COLUMNS[norm]
-        if sorted(params.dtype.names or ()) != sorted(want_cols):
-            note("parameter-columns-wrong", cfg, got=list(params.dtype.names or ()), expected=want_cols)
-            continue
-        if len(params) != len(exp_sorted) or sorted(sids) != sorted(s for s, _ in exp_sorted):
-            note("encoded-notes-are-not-the-matched-notes", cfg, got=sids, expected=[s for s, _ in exp_sorted])
-            continue
-        keys = [(ref.score[s]["t"], ref.score[s]["pitch"]) for s in sids]
-        if keys != sorted(keys):
-            note("encoded-notes-not-ordered-by-onset-and-pitch", cfg, got=sids)
-        try:
-            dec = call(PC.decode_performance, score, params, snote_ids=list(sids), beat_normalization=norm)
-        except SutRaised as e:
-            note(e.kind + ":decode", cfg, text=e.text)
-            continue
+    def judge(dec, sids, cfg, tag=""):
         dnotes = {}
         dup = False
         for n in dec.notes:
@@ -244,8 +218,8 @@ def oracle_roundtrip(spec):
                 dup = True
             dnotes[n["id"]] = n
         if dup or sorted(dnotes) != sorted(sids):
-            note("decoded-notes-are-not-the-encoded-notes", cfg, got=sorted(n["id"] for n in dec.notes), expected=sorted(sids))
-            continue
+            note("decoded-notes-are-not-the-encoded-notes" + tag, cfg, got=sorted(n["id"] for n in dec.notes), expected=sorted(sids))
+            return
         shifts = []
         bad_nan = False
         for sid in sids:
@@ -269,19 +243,75 @@ def oracle_roundtrip(spec):
                     kind = "duration-not-reproduced:shorter-than-75ms"
                 else:
                     kind = "duration-not-reproduced"
-                note(kind, cfg, score_id=sid, got=got_d, expected=exp_d, score_duration_beats=float(sn["duration_beat"]))
+                note(kind + tag, cfg, score_id=sid, got=got_d, expected=exp_d, score_duration_beats=float(sn["duration_beat"]))
             if int(n["velocity"]) != pn["vel"]:
-                note("velocity-not-reproduced", cfg, score_id=sid, got=int(n["velocity"]), expected=pn["vel"])
+                note("velocity-not-reproduced" + tag, cfg, score_id=sid, got=int(n["velocity"]), expected=pn["vel"])
             if int(n["midi_pitch"]) != ref.score[sid]["pitch"]:
-                note("decoded-pitch-is-not-the-score-pitch", cfg, score_id=sid, got=int(n["midi_pitch"]), expected=ref.score[sid]["pitch"])
+                note("decoded-pitch-is-not-the-score-pitch" + tag, cfg, score_id=sid, got=int(n["midi_pitch"]), expected=ref.score[sid]["pitch"])
         if bad_nan:
-            note("decoded-time-not-finite", cfg, tempo_constant=len(set(ref.slopes(False))) == 1 or len(set(ref.slopes(True))) == 1, groups=len(ref.groups))
+            note("decoded-time-not-finite" + tag, cfg, tempo_constant=len(set(ref.slopes(False))) == 1 or len(set(ref.slopes(True))) == 1, groups=len(ref.groups))
         if shifts:
             vals = sorted(x for x, _ in shifts)
             med = vals[len(vals) // 2]
             worst = max(shifts, key=lambda x: abs(x[0] - med))
             if abs(worst[0] - med) > tol_on:
-                note("onset-not-reproduced-up-to-a-common-shift", cfg, score_id=worst[1], shift=worst[0], common_shift=med, tolerance=tol_on)
+                note("onset-not-reproduced-up-to-a-common-shift" + tag, cfg, score_id=worst[1], shift=worst[0], common_shift=med, tolerance=tol_on)
+
+    seen = {}
+    for sid, _ in ref.pairs:
+        seen.setdefault((ref.score[sid]["t"], ref.score[sid]["pitch"]), []).append(sid)
+    ambiguous = any(len(v) > 1 for v in seen.values())
+    configs = [(n, m) for n in GP.NORMS for m in GP.METHODS]
+    for cfg in configs:
+        norm, meth = cfg
+        try:
+            res = feed(lambda al: PC.encode_performance(score, perf, al, beat_normalization=norm, tempo_smooth=meth))
+        except SutRaised as e:
+            note(e.kind + ":encode", cfg, text=e.text)
+            continue
+        if not (isinstance(res, tuple) and len(res) == 2):
+            note("encode-result-shape", cfg, got=repr(type(res)))
+            continue
+        params, sids = res
+        sids = [str(x) for x in sids]
+        want_cols = ["beat_period", "velocity", "timing", "articulation_log"] + GP.NORM_COLUMNS[norm]
+        if sorted(params.dtype.names or ()) != sorted(want_cols):
+            note("parameter-columns-wrong", cfg, got=list(params.dtype.names or ()), expected=want_cols)
+            continue
+        if len(params) != len(exp_sorted) or sorted(sids) != sorted(s for s, _ in exp_sorted):
+            note("encoded-notes-are-not-the-matched-notes", cfg, got=sids, expected=[s for s, _ in exp_sorted])
+            continue
+        keys = [(ref.score[s]["t"], ref.score[s]["pitch"]) for s in sids]
+        if keys != sorted(keys):
+            note("encoded-notes-not-ordered-by-onset-and-pitch", cfg, got=sids)
+        if meth == "average" and len(ref.groups) > 1:
+            # documented meaning of the curve: performed inter-onset interval of successive (mean) onsets per
+            # score interval; the closing value (up to the last offset) is not judged
+            sl = ref.slopes(True)
+            gi = {t: i for i, (t, _) in enumerate(ref.groups)}
+            for k, sid in enumerate(sids):
+                i = gi[ref.score[sid]["t"]]
+                if i >= len(sl) - 1:
+                    continue
+                want = float(sl[i])
+                ds = float(ref.tref.beat(ref.groups[i + 1][0]) - ref.tref.beat(ref.groups[i][0]))
+                if not abs(float(params["beat_period"][k]) - want) <= 1e-5 * want + 4e-6 * (1 + ref.T) / ds + 1e-5 * want * (abs(float(ref.tref.beat(ref.groups[i + 1][0]))) + 1) / ds:
+                    note("beat-period-is-not-the-local-tempo", cfg, score_id=sid, got=float(params["beat_period"][k]), expected=want)
+                    break
+        try:
+            dec = call(PC.decode_performance, score, params, snote_ids=list(sids), beat_normalization=norm)
+        except SutRaised as e:
+            note(e.kind + ":decode", cfg, text=e.text)
+            continue
+        judge(dec, sids, cfg)
+        if cfg == configs[0] and len(ref.pairs) == len(ref.score) and not ambiguous:
+            # every score note is matched: the ids may be left out (rows are then taken in note-array order)
+            try:
+                dec = call(PC.decode_performance, score, params, beat_normalization=norm)
+            except SutRaised as e:
+                note(e.kind + ":decode:without-snote-ids", cfg, text=e.text)
+                continue
+            judge(dec, sids, cfg, ":without-snote-ids")
     # one configuration more: the documented third return value and decoding without ids
     try:
         res3 = feed(lambda al: PC.encode_performance(score, perf, al, return_u_onset_idx=True))
